@@ -183,12 +183,12 @@ package keeper
 
 //@ family bindings key types.GetServiceBindingKey value types.ServiceBinding
 //@ family pricings key types.GetPricingKey value types.Pricing
-//@ family volumes  key types.GetRequestVolumeKey value gogotypes.UInt64Value
+//@ family volumes  key types.GetRequestVolumeKey value uint64 enc proto
 
 // The fee of one request: the list price with the time and volume discounts applied, truncated per coin
 // (assumed contract: discount lookup and decimal rounding are not modelled; with no discount it is the list price).
 //@ define DT(svc, prov) = uf("discount_by_time", get(pricings, svc, prov), time)
-//@ define DV(c, svc, prov) = uf("discount_by_volume", get(pricings, svc, prov), ite(has(volumes, c, svc, prov), get(volumes, c, svc, prov).Value, 0))
+//@ define DV(c, svc, prov) = uf("discount_by_volume", get(pricings, svc, prov), ite(has(volumes, c, svc, prov), get(volumes, c, svc, prov), 0))
 //@ define FEE(c, svc, prov, d) = uf("discounted", amt(get(pricings, svc, prov).Price, d), DT(svc, prov), DV(c, svc, prov))
 //@ func Keeper.GetPrice
 //@   property C07
@@ -265,4 +265,52 @@ package keeper
 //@   ensures escrowed:  err == nil ==> (forall d:Str :: bal(DEP, d) == old(bal(DEP, d)) + amt(deposit, d) && bal(owner, d) == old(bal(owner, d)) - amt(deposit, d))
 //@   ensures ledger_frame: forall a:Bytes :: forall d:Str :: a != DEP && a != owner ==> bal(a, d) == old(bal(a, d))
 //@   ensures others:    forall s:Str :: forall p:Bytes :: (s != serviceName || p != provider) ==> has(bindings, s, p) == old(has(bindings, s, p)) && BIND(s, p) == old(BIND(s, p))
+//@ end
+
+// ---------------------------------------------------------------------------------------------
+// Requests and responses (C08: exactly one outcome per request; C07: the fee goes to the provider)
+
+//@ family requests   key types.GetRequestKey value types.CompactRequest
+//@ family contexts   key types.GetRequestContextKey value types.RequestContext
+//@ family activeByID key types.GetActiveRequestKeyByID value bytes enc proto
+//@ family activeByB  key types.GetActiveRequestKey value bytes enc proto
+//@ family responses  key types.GetResponseKey value types.Response
+
+// a stored compact request decodes to a full request: provider and fee come from the compact record
+//@ func Keeper.GetRequest
+//@   property C07, C08
+//@   returns request, found
+//@   ensures source: found ==> has(requests, requestID) && request.Provider == get(requests, requestID).Provider && bechok(request.Provider)
+//@                       && request.ServiceFee == get(requests, requestID).ServiceFee && request.ExpirationHeight == get(requests, requestID).ExpirationHeight
+//@   ensures absent: !has(requests, requestID) ==> !found
+//@ end
+
+// module callbacks run code of the registering module: assumed not to touch this module's store or its escrow accounts
+//@ func Keeper.CompleteBatch
+//@   property C07, C08
+//@   trusted
+//@   returns rc
+//@   ensures done: rc == with(requestContext, "BatchState", types.BATCHCOMPLETED)
+//@ end
+
+//@ define REQUEST(i) = get(requests, i)
+
+// AddResponse: only the provider the request was addressed to, only while the request is active; the active marker is
+// consumed (a second answer, or an answer after expiry removed the marker, is rejected) and the fee is earned.
+//@ func Keeper.AddResponse
+//@   property C08, C07
+//@   returns request, response, err
+//@   requires has(prm) && !isnil(TAXRATE) && raw(TAXRATE) >= 0 && raw(TAXRATE) <= DEC_ONE
+//@   requires tallyWF(earned) && tallyWF(ownerEarned) && has(owners, provider)
+//@   requires k.feeCollectorName != "service_request_account" && k.feeCollectorName != "service_deposit_account"
+//@   requires has(requests, requestID) ==> (forall d:Str :: amt(REQUEST(requestID).ServiceFee, d) >= 0)
+//@   let fee = REQUEST(requestID).ServiceFee
+//@   modifies bal, earned, ownerEarned, responses, activeByID, activeByB, volumes, contexts
+//@   ensures addressee:  err == nil ==> old(has(requests, requestID)) && provider == addr(REQUEST(requestID).Provider) && old(has(activeByID, requestID))
+//@   ensures consumed:   err == nil ==> !has(activeByID, requestID) && has(responses, requestID) && activeByID == del(old(activeByID), requestID)
+//@   ensures rejected:   (!old(has(requests, requestID)) || provider != addr(REQUEST(requestID).Provider) || !old(has(activeByID, requestID)))
+//@                        ==> err != nil && activeByID == old(activeByID) && responses == old(responses) && earned == old(earned) && ownerEarned == old(ownerEarned) && bal == old(bal) && contexts == old(contexts)
+//@   ensures earned_fee: err == nil ==> (forall d:Str :: tally(earned, provider, d) == old(tally(earned, provider, d)) + amt(fee, d) - taxOf(fee, d))
+//@   ensures tax_paid:   err == nil ==> (forall d:Str :: bal(REQ, d) == old(bal(REQ, d)) - taxOf(fee, d) && bal(FEECOL, d) == old(bal(FEECOL, d)) + taxOf(fee, d))
+//@   ensures requests_kept: requests == old(requests)
 //@ end
